@@ -53,3 +53,65 @@ def run_isolated(fn, args=(), timeout=None):
       if os.path.exists(x):
         os.unlink(x)
     os.rmdir(d)
+
+
+class WorkerDied(Exception):
+  """A worker process died twice on the same job (killed by the kernel - out of memory - or crashed natively)."""
+
+
+def imap_unordered(fn, jobs, procs=15, chunk=1, retries=1):
+  """multiprocessing.Pool.imap_unordered without its failure mode: a Pool whose worker is killed (e.g. by the OOM killer) waits
+  for ever.  Every chunk of jobs runs in a freshly forked child (so nothing piles up between jobs, like maxtasksperchild);
+  a child that dies without delivering is detected through its sentinel, its jobs are retried one by one with nothing else
+  running, and a second death raises WorkerDied naming the job."""
+  from multiprocessing import connection
+  jobs = list(jobs)
+  ctx = mp.get_context('fork')
+  todo = [list(range(i, min(i + chunk, len(jobs)))) for i in range(0, len(jobs), chunk)]
+  todo.reverse()
+  retry = []
+  running = {}      # sentinel -> (process, connection, indices, attempt)
+
+  def child(conn, idxs):
+    try:
+      conn.send([fn(jobs[i]) for i in idxs])
+    finally:
+      conn.close()
+
+  def start(idxs, attempt):
+    r, w = ctx.Pipe(duplex=False)
+    p = ctx.Process(target=child, args=(w, idxs))
+    p.start()
+    w.close()
+    running[p.sentinel] = (p, r, idxs, attempt)
+
+  while todo or retry or running:
+    while todo and len(running) < procs:
+      start(todo.pop(), 0)
+    if not todo and not running and retry:
+      start(retry.pop(), 1)                      # retried alone
+    ready = connection.wait([v[1] for v in running.values()] + list(running), timeout=5)
+    for sent in list(running):
+      p, r, idxs, attempt = running[sent]
+      got = None
+      if r in ready or sent in ready:
+        try:
+          if r.poll(0):
+            got = r.recv()
+        except (EOFError, OSError):
+          got = None
+        if got is None and p.is_alive() and sent not in ready:
+          continue
+        if got is None and p.is_alive():
+          continue
+        p.join()
+        r.close()
+        del running[sent]
+        if got is not None:
+          for x in got:
+            yield x
+        elif attempt < retries:
+          for i in idxs:
+            retry.append([i])
+        else:
+          raise WorkerDied('worker died twice (exit code %s) on job %r' % (p.exitcode, jobs[idxs[0]] if len(repr(jobs[idxs[0]])) < 300 else idxs[0]))
